@@ -419,13 +419,14 @@ class Effects:
         return self._exit if self._exit is not None else Lin(0, {"frame:exit?": 1})
 
 
-def operand_symbols(arm_body):
-    """local name → operand number, from the operand reads of the arm (ordered by offset)"""
+def operand_symbols(arm_body, F=None):
+    """local name → operand number, from the operand reads of the arm (ordered by offset); a read may sit in a small
+    decoding helper (`read_u16_operand(code, ip)`), which is looked through"""
     offs = {}
     for x in H.walk(arm_body):
         if x.get("k") == "let" and x.get("init") is not None and x["pat"].get("k") == "bind":
             best = None
-            for y in H.walk(x["init"]):
+            for y in H.walk(H.inline_helpers(F, x["init"]) if F is not None else x["init"]):
                 if y.get("k") == "index":
                     sl = _code_slice(y)
                     if sl is not None:
@@ -474,7 +475,7 @@ def opcode_effects(F, R):
         E.collect_lets(where, a["body"])
         eff = E.eff(a["body"], where)
         oks = {d for d, k in eff if k in ("fall", "ret")}
-        syms = operand_symbols(a["body"])
+        syms = operand_symbols(a["body"], F)
         m = {nm: Lin(0, {"op%d" % i: 1}) for nm, i in syms.items()}
         oks = {d.subst(m) for d in oks}
         raw = sorted(map(repr, oks))
